@@ -29,8 +29,8 @@ MANIFEST = {
     "note": "6 generated key layouts x all coordinates x 4 kinds.",
     "design_ref": "3 (C14)",
 }
-PLANS_Q = ["keys_a", "keys_b", "keys_dup", "keys_wrap", "nested", "keys_sparse"]
-PLANS_T = PLANS_Q + ["keys_sparse2", "keys_c", "keys_dup2"]
+PLANS_Q = ["keys_a", "keys_b", "keys_dup", "keys_wrap", "nested", "keys_sparse", "keys_falsy"]
+PLANS_T = PLANS_Q + ["keys_sparse2", "keys_c", "keys_dup2", "keys_falsy2"]
 SHARD_TIMEOUT = {"quick": 900, "thorough": 3600}
 worker_init = sweepcheck.worker_init
 
@@ -94,6 +94,10 @@ def judge(ex, ref, case):
             dup_ok += 1
             if not isinstance(e[3], IllegalMessageSequence):
                 problems.append((f"duplicate-key-rejected-with-{type(e[3]).__name__}", repr(e[3])))
+    if not li:
+        r0 = dict(ex.calls).get("RE")
+        if r0 is not None and r0[0] != "ret":
+            problems.append((f"uninterrupted-plan-failed:{type(r0[1]).__name__}", repr(r0[1])[:200]))
     counters = {"executions": 1, "events_attributed": attributed, "concurrent_runs_max": int(max_open >= 2),
                 "duplicate_open_checked": dup_ok}
     key = f"{key0}|open<={max_open}|{outcome_class(ex)}"
